@@ -130,6 +130,20 @@ func (g *genC05) Block(w *World, b int) Block {
 		}
 		blk.Steps = append([]Step{ps}, blk.Steps...)
 	}
+	if rng.Chance(1, 25) {
+		// a parameter-change proposal carrying a small boundary value (-1, 0, 1) for one integer parameter goes
+		// through real governance only: the modules' own validators decide whether it is ever stored, and
+		// whatever they let through must not stop block processing
+		mod, keys := "storage", []string{"check_window", "proof_window", "chunk_size", "misses_to_burn", "max_contract_age_in_blocks",
+			"price_per_tb_per_month", "attestFormSize", "attestMinToPass", "collateralPrice"}
+		if rng.Chance(1, 5) {
+			mod, keys = "mint", []string{"tokens_per_block", "mint_decrease"}
+		}
+		ps := Step{Kind: "param", Fault: "boundary_values", S: map[string]string{"module": mod, "via": "gov"},
+			N: map[string]int64{keys[rng.Intn(len(keys))]: rng.Pick64(-1, 0, 1)}}
+		blk.Steps = append(blk.Steps, ps)
+		w.Probe("gov_boundary_param_proposal")
+	}
 	n := rng.Intn(4)
 	for i := 0; i < n; i++ {
 		v := 1 + rng.Intn(g.nAcc-1)
